@@ -109,7 +109,10 @@ class ObservedLogic(rl.ReconnectLogic):
         if v == 0 and caller == "start" and self.acts is not None:
             self.acts.append("reset_tries")
         if caller == "_handle_connection_failure" and self.acts is not None:
-            self.acts.append("fail_counted:" + ("auth" if v == rl.MAXIMUM_BACKOFF_TRIES else "other"))
+            # (counting the 100th consecutive ordinary failure also gives 100: there the two writes coincide and the error
+            # that is being handled says which one it is)
+            jump = v == rl.MAXIMUM_BACKOFF_TRIES and (self.__dict__.get("_t") != v - 1 or self.__dict__.get("_err_auth", False))
+            self.acts.append("fail_counted:" + ("auth" if jump else "other"))
         self.__dict__["_t"] = v
 
     async def stop(self):
@@ -121,6 +124,7 @@ class ObservedLogic(rl.ReconnectLogic):
         # on_connect_error is optional: without it the report is made visible here (same place in the order of events)
         if self._on_connect_error_cb is None and self.acts is not None:
             self.acts.append("on_connect_error:" + ("auth" if isinstance(err, AUTH_KINDS) else "other"))
+        self.__dict__["_err_auth"] = isinstance(err, AUTH_KINDS)
         await super()._handle_connection_failure(err)
 
 
@@ -579,6 +583,9 @@ def scenarios(rng, thorough):
                     if rng.random() < 0.3:
                         out.append((f"{name}+{o1},{o2}@{pos}", sk[:pos] + [o1, o2] + sk[pos:], True))
     out.append(("noname", list(SKELETONS["zc-retry"]), False))
+    # "for every n": a device that stays away for a very long time - after the 1300th consecutive failure the manager still
+    # retries, once a minute (no insertions here: the run itself is the point)
+    out.append(("backoff-long", ["start", "settle"] + ["sock:fail", "settle", "timer", "settle"] * 1300 + ["stop", "settle"], True))
     NOS = (False, False, False)
     out = [(n, o, h, NOS) for n, o, h in out]
     # user callbacks that await something: all three suspend, or one of them
